@@ -211,6 +211,8 @@ impl CompilerAction {
 
         output_serializer.serialize(&program, &mut sink)
             .expect("Cannot serialize program to output.");
+        sink.flush()
+            .expect("Cannot write program to output.");
     }
 
     pub fn selected_input(&self) -> Result<NamedSource> {
